@@ -100,7 +100,13 @@ func cmdFn(repo string, args []string) int {
 	vc.discharge(dir, 10, false)
 	bad := 0
 	for _, o := range vc.obls {
+		if o.Aux {
+			continue
+		}
 		fmt.Printf("%-11s %-8s %6.2fs %s  [%s]\n", o.Status, o.Solver, o.Time, o.Name, o.Pos)
+		if os.Getenv("GOVC_LOG") != "" && o.Solver != "simplifier" {
+			fmt.Println("   ", strings.ReplaceAll(o.Output, "\n", "\n    "))
+		}
 		if d := os.Getenv("GOVC_DUMP"); d != "" && strings.HasSuffix(o.Name, d) {
 			fmt.Println("GOAL:", termPreview(o.Goal, 30000))
 			// the distinct string equalities inside the goal, each printed on its own
@@ -120,7 +126,7 @@ func cmdFn(repo string, args []string) int {
 			}
 			walk(o.Goal)
 		}
-		if o.Status != "discharged" {
+		if o.Status != "discharged" && !o.Aux {
 			bad++
 			fmt.Println("   ", strings.ReplaceAll(o.Output, "\n", "\n    "))
 		}
@@ -277,6 +283,9 @@ func report(p *Program, prop, tier string, seed int, results []*fnResult, missin
 			warnings[a] = true
 		}
 		for _, o := range r.vc.obls {
+			if o.Aux {
+				continue
+			}
 			// posts labelled for other properties only are not this property's obligations
 			if o.Kind == "post" && len(o.Props) > 0 && !inProps(o.Props, prop) && !strings.Contains(r.name, "[sweep]") {
 				continue
